@@ -50,6 +50,11 @@ GROUPS = OrderedDict([
                          flag='magnetic_ff', nodata='H', canon='el')),
 ])
 ATTRS = [a for g in GROUPS.values() for a in g['attrs']]
+# data that a loader sets without registering it with core.delayed_load: part of the neutron group by
+# its documentation (nuclear_spin), read through isotopes only; not part of the abstract loader state
+EXTRA_ATTRS = OrderedDict([('nuclear_spin', dict(group='neutron', routes=['iso', 'isoion', 'nodata'],
+                                                 nodata='Fe[45]'))])
+EXTRA_ATTR_ATOMS = ['Cu[63]', 'Ni[58].ion[2]', 'D', 'U[238]']
 GROUP_OF = {a: g for g, d in GROUPS.items() for a in d['attrs']}
 LOAD_GROUP = {d['load']: g for g, d in GROUPS.items()}
 INIT_GROUP = {(d['module'] + '.py', d['init']): g for g, d in GROUPS.items()}
@@ -153,6 +158,8 @@ def route_atom(attr, route):
     if route in ROUTES:
         return atom(ROUTES[route])
     if route == 'nodata':
+        if attr in EXTRA_ATTRS:
+            return atom(EXTRA_ATTRS[attr]['nodata'])
         return atom(GROUPS[GROUP_OF[attr]]['nodata'] if attr in GROUP_OF else 'Og')
     return atom(route)
 
@@ -242,6 +249,9 @@ def alphabet(tier='quick'):
         for a in ATTRS:
             for r in list(ROUTES) + ['nodata']:
                 ev.append('%s:%s:%s' % (kind, a, r))
+        for a, d in EXTRA_ATTRS.items():
+            for r in d['routes']:
+                ev.append('%s:%s:%s' % (kind, a, r))
     ev += ['calc:' + c for c in CALCS]
     ev += ['import:' + m for m in SUBMODULES]
     ev += ['init:' + m for m in INIT_MODULES] + ['init:emission']
@@ -250,16 +260,20 @@ def alphabet(tier='quick'):
         for a in ATTRS:
             for spec in EXTRA_ATOMS:
                 ev.append('read:%s:%s' % (a, spec))
+        for a in EXTRA_ATTRS:
+            for spec in EXTRA_ATTR_ATOMS:
+                ev.append('read:%s:%s' % (a, spec))
     return ev
 
 
 def representative_events():
-    """About sixty events, one per (means, group, route) that can behave differently."""
+    """About sixty events (62), one per (means, group, route) that can behave differently."""
     ev = []
     for a in ['covalent_radius', 'crystal_structure', 'neutron', 'neutron_activation', 'xray', 'K_alpha',
               'K_alpha_units', 'magnetic_ff']:
         for r in ROUTES:
             ev.append('read:%s:%s' % (a, r))
+    ev += ['read:nuclear_spin:iso', 'read:nuclear_spin:isoion']
     for a in ['covalent_radius', 'crystal_structure', 'neutron', 'neutron_activation', 'xray', 'K_alpha',
               'magnetic_ff']:
         ev.append('hasattr:%s:nodata' % a)
@@ -942,8 +956,7 @@ def fresh_main(arg):
     out = {'where': os.path.realpath(periodictable.__file__),
            'pristine': sorted(m for m in sys.modules if m.startswith('periodictable.'))}
     out['values'] = replay_here(req.get('history', []))
-    if req.get('states'):
-        out['state'] = abstract_state(False)
+    out['state'] = abstract_state(False)        # after the history, before any probe
     if req.get('digest_before'):
         out['digest_before'] = digest()
     if req.get('events'):
